@@ -152,5 +152,6 @@ pub fn run(tier: &str, seed: u64) -> Sink {
         sink.merge(s);
     }
     sink.s(json!({"c03_trivia": {"generated": n}}));
+    sink.merge(crate::semi::run(tier, seed));
     sink
 }
